@@ -321,6 +321,12 @@ func (g *Graph) Reachable(target Point) bool {
 	return g.reach(g.Entry(), target, nil, nil)
 }
 
+// isSelectDeadEnd: go/cfg ends the case chain of a select without default in an empty block with no
+// successors ("no case ready"); a blocking select never gets there, so it is not a function exit.
+func isSelectDeadEnd(b *cfg.Block) bool {
+	return b.Kind == cfg.KindSelectAfterCase && len(b.Succs) == 0 && len(b.Nodes) == 0
+}
+
 // isPanicExit reports whether block b ends in a call to panic.
 func (g *Graph) isPanicExit(b *cfg.Block) bool {
 	if len(b.Nodes) == 0 {
@@ -371,7 +377,7 @@ func (g *Graph) MustPass(from Point, o PassOpts, pred func(ast.Node) bool) (bool
 			}
 		}
 		if len(b.Succs) == 0 {
-			if g.isPanicExit(b) {
+			if g.isPanicExit(b) || isSelectDeadEnd(b) {
 				return true
 			}
 			if o.ExitOK != nil && o.ExitOK(b) {
